@@ -85,6 +85,10 @@ def check(chk):
     _c02._start_wait_taken_only_when_starting(chk)
     from sa.helpers import unload_cleanup_unconditional
     unload_cleanup_unconditional(chk, "PAIR-8")
+    # the game waits for every active game mode when it stops, also one whose own stop is already in flight (shared with C02 / C06):
+    # otherwise that mode is still active - handlers, devices and all - when machine.game is gone
+    from sa.helpers import stop_loop_selection
+    stop_loop_selection(chk, "PAIR-8", "game", "a game mode still stopping when the game stops is left active outside of a game")
     # a config player never plays for a mode that has stopped: a queue event held by another handler iterates over a snapshot of the handlers,
     # so the player's callback can still be called after mode_stop removed it; the entry it would create under the stopped mode's context is
     # cleared by nobody
